@@ -52,6 +52,9 @@ func (s *Slicer) index(fn *ssa.Function) *fnIndex {
 					ix.calls = append(ix.calls, x)
 					for _, a := range CallArgs(x) {
 						ix.argUsers[a] = append(ix.argUsers[a], x)
+						if b := StripIface(a); b != a {
+							ix.argUsers[b] = append(ix.argUsers[b], x)
+						}
 					}
 				}
 			}
@@ -246,6 +249,22 @@ func (s *Slicer) visit(v ssa.Value, depth int) {
 	case *ssa.Range:
 		s.visit(x.X, depth)
 	case *ssa.Select:
+	}
+}
+
+// StripIface removes interface boxing and type changes.
+func StripIface(v ssa.Value) ssa.Value {
+	for {
+		switch x := v.(type) {
+		case *ssa.MakeInterface:
+			v = x.X
+		case *ssa.ChangeInterface:
+			v = x.X
+		case *ssa.ChangeType:
+			v = x.X
+		default:
+			return v
+		}
 	}
 }
 
@@ -469,7 +488,8 @@ func (s *Slicer) call(c *ssa.Call, resultIdx int, depth int) {
 	}
 	// object state: other calls that mention the same mutable objects
 	ix := s.index(c.Parent())
-	for _, a := range args {
+	for _, a0 := range args {
+		a := StripIface(a0)
 		if !mutableObject(a) {
 			continue
 		}
